@@ -391,6 +391,65 @@ def enc_effects(effs, final):
     return ";".join(out)
 
 
+def _o(x):
+    return "~" if x is None else (enc(x) or "%")
+
+
+def op_model(o):
+    """the operation as a Model/Db.v op (line format of the C06 driver); the product directory is named by its
+    path below the stack, which is equal for two operations exactly when the real directories are.
+    tag = Eups.declare(p, v, tag=t) without a directory: the skeleton holds <stack>/<flavor>/<p>/<v> for every
+    product, version and flavor, which Eups.declare finds by itself (search of self.path, Eups.py ~2300, not part of
+    Model/Db.v, whose worlds keep product directories elsewhere) and which is also the directory every declaration
+    of this harness records; the operation is therefore encoded with that directory given"""
+    head = lambda k: [k, enc(o["flavor"]), "~", "0", "0"]
+    k = o["op"]
+    pdir = "/%s/%s/%s" % (o["flavor"], o["p"], o.get("v") or "1")
+    if k == "declare":
+        f = head("D") + [enc(o["p"]), enc(o["v"]), enc(pdir), "~", _o(o.get("tag"))]
+    elif k == "tag":
+        f = head("D") + [enc(o["p"]), enc(o["v"]), enc(pdir), "~", _o(o["tag"])]
+    elif k == "untag":
+        f = head("U") + [enc(o["tag"]), enc(o["p"]), _o(o.get("v"))]
+    elif k == "undeclare":
+        f = head("X") + [enc(o["p"]), _o(o["v"])]
+    else:
+        raise ValueError(k)
+    return ",".join(f)
+
+
+def effects_line(case):
+    return "\t".join(["effects", "0", "stack", "|".join(op_model(o) for o in case["history"]), op_model(case["op"])])
+
+
+def parse_effects(out):
+    if out.startswith("DRIVER-ERROR"):
+        raise common.ModelError(out)
+    if out.startswith("err:"):
+        return out, []
+    body = out.split("#", 1)[1]
+    return "ok", [tuple(common.dec(x) for x in e.split(":", 1)) for e in body.split(";")] if body else []
+
+
+def compare_effect_sequences(ctx, cases):
+    """second layer of the tie: the ordered record-level effects (kind, path) the real operation performed, read off
+    the trace of its completed run, against Model/CrashDb.image of Db.effects on the model's image of the prior state
+    (the model run on the same history)"""
+    outs = ctx.model([effects_line(c) for c in cases])
+    for c, out in zip(cases, outs):
+        status, model = parse_effects(out)
+        trace = c["_full"]["info"]["trace"] or []
+        effs, _ = effects_from(trace, c["_full"]["after"])
+        real = [(k, "stack/" + rel) for k, rel in effs]
+        ctx.traces_validated += 1
+        ctx.bump("effect-sequences-compared")
+        if [tuple(e) for e in model] != real:
+            ctx.disagree({"history": c["history"], "op": c["op"]},
+                         "%s %s" % (status, ";".join("%s:%s" % e for e in model)),
+                         "%s %s" % (c["_full"]["info"]["outcome"], ";".join("%s:%s" % e for e in real)),
+                         where="record-level effect sequence of the operation (Db.effects vs real trace)")
+
+
 # ------------------------------------------------------------------ oracle
 
 def oracle(case, k, old, new, res, trace):
@@ -475,6 +534,7 @@ def explore(ctx, cases, flush=True):
         for k, cr in enumerate(r["crashes"]):
             jobs.append((c, k))
             res.append(("ok", cr))
+    compare_effect_sequences(ctx, cases)
     lines, meta = [], []
     for (c, k), r in zip(jobs, res):
         if r[0] != "ok":
